@@ -50,6 +50,10 @@ impl C01 {
     }
 }
 
+fn short_count() -> u64 {
+    (0..=4u32).map(|l| (crate::corpus::SHORT_ALPHABET.len() as u64).pow(l)).sum::<u64>() * 2
+}
+
 fn err_sig(data: &[u8], kind: std::io::ErrorKind) -> String {
     let (enc, skip) = sniff(data);
     if enc == Enc::Utf16Le && (data.len() - skip) % 2 == 1 && data.last() == Some(&0x0A) && kind == std::io::ErrorKind::UnexpectedEof {
@@ -66,7 +70,7 @@ impl Scenario for C01 {
         "exploration"
     }
     fn rule(&self) -> String {
-        "Families: trunc-sweep — every truncation length of every small bundled file (thorough: also of its UTF-16LE/BE transcodings), enumerated; storage-faults — bundled or generated file with 0..3 storage faults (S1 truncate, S2 bit flip / overwrite / insert from a structural-byte dictionary, S3 torn splice with another file at 512-byte or arbitrary boundaries, S4 lost / zeroed / duplicated block, S6 invalid UTF-8 / lone surrogate / odd tail) and 0..3 record faults (L1..L5), encoding knob, Mode knob 0..3, mostly one-shot delivery with a share under chunking / Interrupted; workload-only families reported separately: uniform noise, dictionary noise, hostile slider geometry (near-collinear arcs at large coordinates that yield NaN lengths, huge arcs, limit coordinates). Every plan runs all nine decoder types; the Beatmap is encoded (Vec and encode_to_string), checked for UTF-8 and decoded again. distinct_nontrivial = distinct plan hashes that carry at least one storage or record fault or are noise.".into()
+        "Families: short-prefix — every byte string of length <= 4 over a 12-byte structural alphabet (BOM pieces, NUL, CR, LF, '[', …), alone and in front of a small file, enumerated in both tiers; trunc-sweep — every truncation length of every small bundled file (thorough: also of its UTF-16LE/BE transcodings), enumerated; storage-faults — bundled or generated file with 0..3 storage faults (S1 truncate, S2 bit flip / overwrite / insert from a structural-byte dictionary, S3 torn splice with another file at 512-byte or arbitrary boundaries, S4 lost / zeroed / duplicated block, S6 invalid UTF-8 / lone surrogate / odd tail) and 0..3 record faults (L1..L5), encoding knob, Mode knob 0..3, mostly one-shot delivery with a share under chunking / Interrupted; workload-only families reported separately: uniform noise, dictionary noise, hostile slider geometry (near-collinear arcs at large coordinates that yield NaN lengths, huge arcs, limit coordinates). Every plan runs all nine decoder types; the Beatmap is encoded (Vec and encode_to_string), checked for UTF-8 and decoded again. distinct_nontrivial = distinct plan hashes that carry at least one storage or record fault or are noise.".into()
     }
     fn assumptions(&self) -> Vec<String> {
         vec![
@@ -81,6 +85,7 @@ impl Scenario for C01 {
     }
     fn total_runs(&self, tier: Tier) -> u64 {
         self.trunc(tier).last().copied().unwrap_or(0)
+            + short_count()
             + match tier {
                 Tier::Quick => 180_000,
                 Tier::Thorough => 6_000_000,
@@ -109,6 +114,31 @@ impl Scenario for C01 {
             }
             p.faults.push("S1-truncate".into());
             p.note = self.corpus.files[f].0.clone();
+            return p;
+        }
+        if idx < ntr + short_count() {
+            // exhaustive: every byte string of length <= 4 over the structural alphabet, alone or followed by a small file
+            let mut k = idx - ntr;
+            let tail = k % 2;
+            k /= 2;
+            let a = crate::corpus::SHORT_ALPHABET.len() as u64;
+            let mut len = 0u32;
+            loop {
+                let c = a.pow(len);
+                if k < c {
+                    break;
+                }
+                k -= c;
+                len += 1;
+            }
+            let mut p = Plan::new("C01", "short-prefix", seed, idx);
+            for _ in 0..len {
+                p.data.push(crate::corpus::SHORT_ALPHABET[(k % a) as usize]);
+                k /= a;
+            }
+            if tail == 1 {
+                p.data.extend_from_slice(b"osu file format v9\n[General]\nMode:1\n[HitObjects]\n1,2,3,1,0\n");
+            }
             return p;
         }
         let mut rng = Rng::for_run(seed, "C01", idx);
@@ -176,6 +206,13 @@ impl Scenario for C01 {
                     let k = storage_fault(&mut rng, &mut d, &self.corpus, STORAGE_ALL);
                     p.faults.push(k.to_string());
                 }
+                if rng.chance(1, 40) {
+                    // the wrong kind of file: a foreign magic number in front
+                    let mut m = rng.pick(crate::corpus::MAGICS).to_vec();
+                    m.extend_from_slice(&d);
+                    d = m;
+                    p.faults.push("S7-foreign-magic-prefix".into());
+                }
                 p.data = d;
             }
         }
@@ -188,6 +225,7 @@ impl Scenario for C01 {
         let data = &plan.data[..];
         st.inc(match plan.scen.as_str() {
             "trunc-sweep" => "family.fault-derived.truncation-sweep",
+            "short-prefix" => "family.exhaustive-short-prefixes",
             "noise-uniform" => "family.workload-only.uniform-noise",
             "noise-dictionary" => "family.workload-only.dictionary-noise",
             "generated+faults" => "family.grammar-generated(+faults)",
@@ -208,6 +246,7 @@ impl Scenario for C01 {
                 "L3-duplicate" => "fired.L3-record-duplicated",
                 "L4-reorder" => "fired.L4-records-reordered",
                 "L5-noise" => "fired.L5-noise-record",
+                "S7-foreign-magic-prefix" => "fired.S7-foreign-magic-prefix",
                 _ => "fired.other",
             });
         }
@@ -288,7 +327,7 @@ impl Scenario for C01 {
         Ok(())
     }
     fn nontrivial(&self, plan: &Plan) -> bool {
-        !plan.faults.is_empty() || plan.scen.starts_with("noise") || plan.scen == "hostile-geometry"
+        !plan.faults.is_empty() || plan.scen.starts_with("noise") || plan.scen == "hostile-geometry" || (plan.scen == "short-prefix" && plan.data.len() >= 2)
     }
     fn reach_probes(&self) -> Vec<&'static str> {
         vec![
